@@ -116,7 +116,7 @@ def print_bdl(p, layout=None, want_doc=False):
     P.block("Edificio", "BUILD-PARAMETERS", bp)
     for m in p.get("materials", []):
         if "r" in m:
-            P.block(m["name"], "MATERIAL", [("TYPE", "RESISTANCE"), ("RESISTANCE", m["r"])])
+            P.block(m["name"], "MATERIAL", [("TYPE", "RESISTANCE"), ("RESISTANCE", m["r"])] + ([("GROUP", q(m["group"]))] if "group" in m else []))
         else:
             a = [("TYPE", "PROPERTIES")]
             if "thick" in m:
@@ -126,15 +126,17 @@ def print_bdl(p, layout=None, want_doc=False):
                 a.append(("SPECIFIC-HEAT", m["cp"]))
             if "mu" in m:
                 a.append(("VAPOUR-DIFFUSIVITY-FACTOR", m["mu"]))
+            if "group" in m:
+                a.append(("GROUP", q(m["group"])))
             P.block(m["name"], "MATERIAL", a)
     for l in p.get("layers", []):
-        P.block(l["name"], "LAYERS", [("MATERIAL", [q(x) for x in l["mats"]]), ("THICKNESS", list(l["ths"]))])
+        P.block(l["name"], "LAYERS", ([("GROUP", q(l["group"]))] if "group" in l else []) + [("MATERIAL", [q(x) for x in l["mats"]]), ("THICKNESS", list(l["ths"]))])
     for g in p.get("glasses", []):
-        P.block(g["name"], "GLASS-TYPE", [("TYPE", "SHADING-COEF"), ("GLASS-CONDUCTANCE", g["u"]), ("SHADING-COEF", g["sc"])])
+        P.block(g["name"], "GLASS-TYPE", ([("GROUP", q(g["group"]))] if "group" in g else []) + [("TYPE", "SHADING-COEF"), ("GLASS-CONDUCTANCE", g["u"]), ("SHADING-COEF", g["sc"])])
     for f in p.get("frames", []):
-        P.block(f["name"], "NAME-FRAME", [("GROUP", q("Marcos")), ("FRAME-CONDUCT", f["u"]), ("FRAME-ABS", f.get("abs", 0.7)), ("FRAME-WIDTH", f.get("width", 0.1))])
+        P.block(f["name"], "NAME-FRAME", [("GROUP", q(f.get("group", "Marcos"))), ("FRAME-CONDUCT", f["u"]), ("FRAME-ABS", f.get("abs", 0.7)), ("FRAME-WIDTH", f.get("width", 0.1))])
     for g in p.get("gaps", []):
-        a = [("GLASS-TYPE", q(g["glass"])), ("GROUP-GLASS", q("Vidrios")), ("NAME-FRAME", q(g["frame"])), ("GROUP-FRAME", q("Marcos")),
+        a = ([("GROUP", q(g["group"]))] if "group" in g else []) + [("GLASS-TYPE", q(g["glass"])), ("GROUP-GLASS", q(g.get("gglass", "Vidrios"))), ("NAME-FRAME", q(g["frame"])), ("GROUP-FRAME", q(g.get("gframe", "Marcos"))),
              ("PORCENTAGE", g["pct"]), ("INF-COEF", g["inf"])]
         if "du" in g:
             a.append(("porcentajeIncrementoU", g["du"]))
@@ -298,6 +300,19 @@ def random_project(rng, nspaces=None, with_geometry_walls=False, space_offsets=F
             g["du"] = float(rng.randint(1, 30))
         if rng.random() < 0.6:
             g["tj"] = r3(0.05, 0.9)
+    # groups of the library elements: written or left out (documented defaults), a different word in every place
+    gr = random.Random(rng.random())
+    words = ["Grupo %s" % w for w in ("uno", "dos", "tres", "cuatro", "cinco", "seis", "siete", "ocho", "nueve", "diez", "once", "doce", "trece", "catorce",
+                                      "quince", "dieciseis", "diecisiete", "dieciocho", "diecinueve", "veinte", "veintiuno", "veintidos")]
+    gr.shuffle(words)
+    for kind in ("materials", "layers", "glasses", "gaps"):
+        for x in p[kind]:
+            if gr.random() < 0.6:
+                x["group"] = words.pop()
+    for f in p["frames"]:
+        f["group"] = words.pop()
+    for g in p["gaps"]:
+        g["gglass"], g["gframe"] = words.pop(), words.pop()
     p["azimuth"] = rng.choice(azimuths) if azimuths else rng.choice([0, 0, 30, 90, 143.5, 200, 315])
     p["perim"] = rng.choice([None, [1.0, 1.5]])
     if p["perim"] is None:
